@@ -267,15 +267,15 @@ EXTRA = {
     "C03": "Sessions run with really mined shares (see C02). Regenerated on every run: when setDest skips a change as \"the same destination\" (the whole url) and the order in which it stops the readers, re-sends to the miner and starts the relay (source_setDest_shape, resend_happens_with_readers_stopped). The connection read cases with a cancellation at the instant bytes arrive run here too (a pool message must not be consumed and dropped while a reader is being stopped).",
     "C04": "Ledger amounts are non-zero: accepted shares are really mined at fractional pool difficulties (see C02), so miner, worker-name, destination and task credit are compared in value, not only in count. Task credit is also followed across a reconnect of the task's destination (lifecycle harness, after_reconnect). The task's side of the credit is followed in the scheduler as well (C07's harness with slow destination changes and destination errors runs here: credits, what a task had left when it ended, crashes).",
     "C05": "Besides single hostile lines: every sequence of up to four well-formed requests (configure / subscribe / authorize / submit, a subscribe answered late) in arbitrary protocol order, next to a well-behaved connection. The random sessions of well-formed events (C02-C04) are run under this check for crashes; a crash replay names the op being executed. Whole lifecycles through the real TCP handler (contract tasks, pool failures, failed reconnects, the relay started again, shares afterwards) run here for crashes; a line that announces a job is followed by a share with version bits for that job; shares from a mining miner and announcements from the active pool are never thinned out.",
-    "C06": "What virtual time cannot exhibit runs against the wall clock: a destination change still in its handshake when the reconnect wait of a failed pool ends (four timings in parallel, judged by monitorRT; a complaint counts only if it repeats). Regenerated on every run: Proxy.Run stops the left-over pipe and builds a fresh one on every start, and the session reconnects to its own copy of the configured destination (source_run_renews_its_pipe, source_session_owns_its_destination).",
+    "C06": "What virtual time cannot exhibit runs against the wall clock: a destination change still in its handshake when the reconnect wait of a failed pool ends (four timings in parallel, judged by monitorRT; a complaint counts only if it repeats). Regenerated on every run: Proxy.Run stops the left-over pipe and builds a fresh one on every start, and the session reconnects to its own copy of the configured destination (source_run_renews_its_pipe, source_session_owns_its_destination). Two sessions side by side through one real TCP handler, the earlier one's pool connection breaks: the replacement is authorised for the same destination and the same miner.",
     "C07": "A second, finer model (Model/SchedSlow.lean: the goroutine's position explicit, newTaskSignal as a one-token channel) covers destination changes that take time: add / remove / share / time arrive "
            "while the scheduler is inside SetDest. Theorems for every history of events and releases: every reachable state is well-formed, a SetDest is entered only for a live queued task, a removed contract is never "
-           "pointed at again (also when the removal arrives mid-change), the proxy's answer installs the destination and callback that were asked for. The real Scheduler runs over a proxy whose SetDest blocks until released and is compared op by op. A crash of the scheduler (or of a callback it handed to the proxy) is a violation with the history as replay; regenerated: the disconnecting flag is raised first, tasks or not.",
+           "pointed at again (also when the removal arrives mid-change), the proxy's answer installs the destination and callback that were asked for. The real Scheduler runs over a proxy whose SetDest blocks until released and is compared op by op. A crash of the scheduler (or of a callback it handed to the proxy) is a violation with the history as replay; regenerated: the disconnecting flag is raised first, tasks or not. A miner whose session is over and that is still listed (the real onDisconnect, then allocation calls of the real Allocator) receives no task.",
     "C08": "Terms updates (purchaseInfoUpdated; new terms of a running contract wait for its close), events without a handler and node failures (a refused eth_call under every event) are ops of model, driver and harness; "
            "history-level theorems (history_inv, history_allocates_only_live over every event list, restart point and chain answer), repurchase_under_new_terms, terms_update_while_running, rpc_failure_is_harmless; the monitor also requires the speed and length of the purchase. The stopping watcher against a handler that waited for it is modelled as two threads over the regenerated statement order (restart_after_done_is_clean for every interleaving). Purchases whose block time stamp runs ahead of the node's clock; which contracts are engaged at all (the contract-manager histories with delisted contracts, restarts and refused calls run here too).",
     "C09": "The monitor also requires that the watcher's account lists every connected miner that is directed to the contract's destination (otherwise it can neither be shed nor released); a seam pauses the scheduler inside the end notification of partial jobs, "
-           "and a generator makes the whole miner leave so that the watcher wants whole miners at the instant a partial job ends. Late fleets (the contract is bought with too little hashrate, large miners join later): what earlier cycles fell short must be made up within 4 + 2 lag/(spare x cycle) cycles. Two known findings (the +-1000 GH/s dead band of adjustHashrate on contracts smaller than the band) run as corpus histories with model witnesses small_miners_starve_then_flood and whole_miners_overstay. The partial miners' cut-off is regenerated and modelled (cutoff_makes_up, plain_cutoff_never_makes_up); the seller world's destination-change histories run here too (work must reach the contract's current destination); regenerated: the miner-disconnect channel's Send has no default arm.",
-    "C13": "Tasks are told of the disconnect only once the miner no longer counts as connected (probe inside the notification). Pools that fail by sending a non-stratum line and keeping the socket open, and peers that are no stratum miners at all (hang up, HTTP, TLS hello), are ops of the lifecycle histories. Regenerated: the scheduler's deferred clean-up is a closure that stops the relay task it started.",
+           "and a generator makes the whole miner leave so that the watcher wants whole miners at the instant a partial job ends. Late fleets (the contract is bought with too little hashrate, large miners join later): what earlier cycles fell short must be made up within 4 + 2 lag/(spare x cycle) cycles. Two known findings (the +-1000 GH/s dead band of adjustHashrate on contracts smaller than the band) run as corpus histories with model witnesses small_miners_starve_then_flood and whole_miners_overstay. The partial miners' cut-off is regenerated and modelled (cutoff_makes_up, plain_cutoff_never_makes_up); the seller world's destination-change histories run here too (work must reach the contract's current destination); regenerated: the miner-disconnect channel's Send has no default arm. Two whole miners of a contract leaving at the same instant are both replaced (12 fixed histories).",
+    "C13": "Tasks are told of the disconnect only once the miner no longer counts as connected (probe inside the notification). Pools that fail by sending a non-stratum line and keeping the socket open, and peers that are no stratum miners at all (hang up, HTTP, TLS hello), are ops of the lifecycle histories. Regenerated: the scheduler's deferred clean-up is a closure that stops the relay task it started. The miner lost in the middle of a change of destination (it hangs up on the first line of the re-send): the session is torn down completely.",
     "C16": "The assumption that a buyer / validator controller returns once its purchase ended is checked against the real ControllerBuyer (C10's harness runs under this check). Node failures are ops: a refused call during the start-up scan or in a clone-factory event handler must end the manager (so that its supervisor restarts it) and every controller must return. How Run ends is regenerated and modelled (run_returns_on_every_exit over the regenerated call list). The buyer / validator side end to end (real factory and controllers): a purchase with this node as buyer or validator is watched whatever its destination decrypts to and whether or not the first subscription is refused.",
     "C17": "Several miners, one after the other, through one real TCP handler (one configured destination): the name and password the pool is presented with vs Model/Cred on the configured destination. The name presented on a pool connection that replaces a failed one (lifecycle reconnect histories).",
     "C18": "Bad payloads go through the real seller controller (C08's world) and are compared with the fail-closed model; every GET route of the real HTTP engine (built around a configuration loaded from flags / environment with marker secrets) is requested and searched for the markers. The buyer world's fail-closed clause (a destination that cannot be read, decrypted or parsed raises an error and is never silently the default pool); what the node prints when its configuration is refused (every configured value in seven malformed shapes, env and flags) is searched for the secrets.",
